@@ -1,7 +1,7 @@
 #!/bin/sh
 # seedall.sh: every stored seeded change against its property's quick check on /repo HEAD (apply, check, revert)
 cd "$(dirname "$0")/.."
-for d in seeded/*/; do
+for d in seeded/${SEEDGLOB:-*}/; do
   id=$(basename $d); prop=${id%-*}
   if ! git -C /repo apply --check $PWD/$d/patch.diff 2>/dev/null; then echo "SEEDALL $id patch-does-not-apply"; continue; fi
   out=$(tools/seedtest.sh $PWD/$d/patch.diff $prop 2>&1)
